@@ -169,6 +169,15 @@ var offenders = []offender{
 	{"map-key-literal-list", true, true, func() *gen.Node { return gen.NMap(gen.NList(), i64(2)) }},
 }
 
+// A literal argument that must be one of a documented list of words (the type name of cast) is compared as a whole word:
+// pieces of a name, two names at once, other letter cases, names with blanks and the empty text are all unknown types.
+func init() {
+	for _, ty := range []string{"", " ", "in", "nt", "oat", "ring", "boo", "st", "t s", "l i", "int float", "bool int float str", "int,float", "int|float", "Int", "INT", "Bool", "FLOAT", "Str", " int", "int ", "int\n", "integer", "boolean", "float64", "int64", "strs", "i", "b"} {
+		ty := ty
+		offenders = append(offenders, offender{fmt.Sprintf("cast-type-near-miss-%q", ty), true, false, func() *gen.Node { return gen.NCall("cast", id("k"), str(ty)) }})
+	}
+}
+
 // ---------------------------------------------------------------- base programs
 
 func genBase(t *rapid.T) ([]*gen.Node, *sgen.G) {
@@ -917,6 +926,22 @@ func TestFixedOffenders(t *testing.T) {
 		{"for i in [1] { add_pattern(\"my_num\", \"\\\\d+\") }\ngrok(_, \"%{my_num:n}\")", "grok(_, \"%{my_num:n}\")", true, false},
 		{"grok(_, \"%{my_num:n}\")\nadd_pattern(\"my_num\", \"\\\\d+\")", "grok(_, \"%{my_num:n}\")", true, false},
 		{"if false { } elif true { add_pattern(\"a1\", \"x\") } elif true { grok(_, \"%{a1}\") }", "grok(_, \"%{a1}\")", true, false},
+	}
+	for _, o := range offenders {
+		if strings.HasPrefix(o.name, "cast-type-near-miss") {
+			frag := gen.Print([]*gen.Node{o.e()}, gen.Minimal{})
+			cases = append(cases, struct {
+				src  string
+				frag string
+				v1   bool
+				v2   bool
+			}{"k = \"12\"\n" + frag, frag, true, false}, struct {
+				src  string
+				frag string
+				v1   bool
+				v2   bool
+			}{"k = \"12\"\nif true { x = [1, " + frag + "] }", frag, true, false})
+		}
 	}
 	v2fns := sem.V2Fns()
 	for i, c := range cases {
